@@ -800,7 +800,16 @@ def repr_obligations(pid, tier, seed):
                 obs.append(dict(id='%s/native/%s/%s/%s' % (pid, fam, impl, kind), mod='h_repr', fn='native', nk=0,
                                 args=[('e', 'int'), ('p', 'int')], pre=['0 <= e < %d' % ne, '0 <= p < %d' % npal],
                                 params=dict(family=fam, kind=kind, impl=impl), timeout=t))
+    # engine E2: the conversion macros of the real family sources from clang IR, argument = unbounded integer
+    for fam in ('II', 'UU', 'LL', 'QQ') + (() if quick else ('IU', 'UI', 'LQ', 'QL', 'IO', 'OI', 'OL', 'OU', 'OQ', 'UO', 'LO', 'QO')):
+        for which in ('key', 'value'):
+            if (which == 'key' and fam[0] not in 'IULQ') or (which == 'value' and fam[1] not in 'IULQ'):
+                continue
+            obs.append(dict(id='%s/ir/%s/%s' % (pid, fam, which), engine='llsym', mod='h_kernel', fn='conv_native', nk=0,
+                            args=[('n', 'int'), ('is_int', 'bool')], params=dict(family=fam, kernel='conv', which=which), timeout=t))
     return {'obligations': obs, 'bounds': {'python_integers': 'unbounded (z3 Int)', 'palette': npal,
+                                           'ir_conversions': 'COPY_KEY_FROM_ARG / COPY_VALUE_FROM_ARG as compiled (clang -O1 IR of the family source) with the '
+                                           'argument\'s integer value an unbounded z3 Int and its int-ness a z3 Bool',
                                            'families': REPR_QUICK if quick else REPR_ALL}}
 
 
@@ -1170,12 +1179,23 @@ PROPS = {
                     'leaves the container unchanged, lookups of unrepresentable keys report absence. (2) Compiled and Python classes '
                     'of the native, bytes, float and object families: (entry point, argument) are solver-chosen selectors into '
                     'palettes of 18 boundary integers, 14 floats (incl. float32 limits, subnormals, inf/nan), 11 values of other types, '
-                    'including __setstate__; oracle = the declared domain with exact-typed read-back (floats: IEEE single rounding).',
+                    'including __setstate__; oracle = the declared domain with exact-typed read-back (floats: IEEE single rounding). '
+                    '(3) Engine E2: the family source is lowered by clang to LLVM IR and the code of COPY_KEY_FROM_ARG / '
+                    'COPY_VALUE_FROM_ARG (with the real longlong_convert / ulonglong_convert helpers) is executed symbolically on a fake '
+                    'PyLong whose value is an UNBOUNDED z3 integer (CPython API calls replaced by contract stubs): the argument is '
+                    'accepted iff it is an int inside the type\'s range, the stored machine word then denotes exactly that integer, '
+                    'otherwise TypeError is set and the target is not written - for all integers, for int/unsigned/long long/'
+                    'unsigned long long keys and values.',
         functions=['BTrees._datatypes: _AbstractNativeDataType.__call__, I/U/L/Q/F/f/s/O/Any', 'intkeymacros.h, intvaluemacros.h '
                    '(COPY_KEY_FROM_ARG, COPY_VALUE_FROM_ARG, longlong_convert, ulonglong_convert), floatvaluemacros.h, objectkeymacros.h '
                    '(check_argument_cmp), _fsBTree.c, as compiled into _bucket_set/_BTree_set/_bucket_setstate/_set_setstate'],
-        stubs=['struct.Struct(fmt).pack for i/I/q/Q: accepts exactly the integers of the format range (calibrated against struct at start-up)'],
-        assumptions=['compiled code: arguments are concrete palette values selected by the solver (keys are unboxed in C)'],
+        stubs=['struct.Struct(fmt).pack for i/I/q/Q: accepts exactly the integers of the format range (calibrated against struct at start-up)',
+               'operator.index for ints (identity)',
+               'E2: PyLong_AsLong, PyLong_AsLongLongAndOverflow, PyLong_AsUnsignedLongLong (result / overflow / OverflowError per the CPython '
+               'documentation, over an unbounded integer), PyErr_Occurred/ExceptionMatches/Clear/SetString (one error-indicator cell), '
+               'Py_TYPE/PyType_HasFeature run from IR on a fake object whose tp_flags carry the solver-chosen int-ness'],
+        assumptions=['compiled containers: arguments are concrete palette values selected by the solver (keys are unboxed in C); the E2 part '
+                     'covers the conversion macros only, not the container code around them'],
     ),
     'C12': dict(
         families=['OL', 'IF'],
